@@ -5,13 +5,13 @@ import json, os
 V = os.path.dirname(os.path.dirname(os.path.abspath(__file__)))
 
 CLAIMED = {
- "C15": dict(technique="TLA+ codec spec (Codec.tla) checked by TLC; every case replayed on the code as a vector; exhaustive 2^32 sweep against the vector-validated mirror",
+ "C15": dict(technique="TLA+ codec spec (Codec.tla) checked by TLC; every case replayed on the code as a vector; exhaustive 2^32 sweep against the vector-validated mirror; the spec's own laws additionally checked over the whole domain by Apalache (AP_VarInt.tla, bridged to Codec.tla by TLC)",
    text="Codec.tla states the encoding as operators; TLC checks round trip, length rule, exact consumption, truncation failure and conversion range on the case family and emits each case as a vector that the harness replays on VarInt::{read,write,try_from}. Because the domain is finite, the thorough tier additionally decides it outright: all 2^31 values and all 2^32 conversion inputs against a mirror of the two operators that must first agree with every TLC vector.",
    note="trusted: TLC, the 12-line Rust mirror after validation against the vectors, serde_json; 32-bit TLC integers force u32 inputs to be split in halves", ref="6 C15"),
  "C16": dict(technique="TLA+ codec spec (DecNVAll/EncNV) checked by TLC on all short byte strings over a boundary alphabet; vectors replayed on NVIter/nv::write with pointer-range comparison",
    text="TLC enumerates every byte string up to length 5 over the boundary alphabet and pair lists with lengths around the 1/4-byte switch, checks consecutive-sub-slice, stop-at-first-incomplete, prefix-monotonicity and round-trip laws on the specification and emits expected pairs as offsets into the input; the harness checks the real iterator's slices by pointer (zero-copy), the mutable variant, the size hint and the encoder's byte count.",
    note="model scale only for lengths (<=129); 65535+ lengths and 2^31 announcements are exercised through the parser traces of C01/C03", ref="6 C16"),
- "C17": dict(technique="TLA+ codec spec (headers, bodies, GetValuesResult, epilogue) checked by TLC; vectors replayed on the public encode/decode functions",
+ "C17": dict(technique="TLA+ codec spec (headers, bodies, GetValuesResult, epilogue) checked by TLC; vectors replayed on the public encode/decode functions; padding rule over all lengths by Apalache (AP_Rules.tla)",
    text="Each header field is enumerated exhaustively with the others sampled, BeginRequest over all roles and flag bytes, EndRequest over all status bytes, the padding rule over all content lengths, GetValuesResult over all subsets x decimal-length boundaries x pre-filled Vec/SmallVec targets, every exit status; laws are TLC invariants, expected bytes are replayed on the code.",
    note="trusted: TLC, vector transport; the epilogue byte sequence is observed through Request::close in the connection replays", ref="6 C17"),
 }
@@ -26,7 +26,7 @@ CLAIMED.update({
  "C04": dict(technique="TLC invariant RepliesExact (all replies so far = reference list by due offset) on reply menus x all partitions; replies compared as bytes in replays and as decoded descriptors in validated traces",
    text="Replies are first-class in the spec (kind, id, status / variable set). RepliesExact states that after any prefix the emitted replies are exactly those the reference prescribes, in order; TLC checks it for GetValues bodies split at every offset, unknown types, foreign/duplicate BeginRequest, unknown role and abort during Params at every record gap. The code's output bytes are compared with the encoder's for every explored transition, and decoded again in recorded traces.",
    note="request-parser half (stream parser replies are added with StreamParser.tla); interpretation of unknown-type ids and empty GetValues bodies as stated in DESIGN.md", ref="6 C04"),
- "C06": dict(technique="TLC invariants BoundSuffices / NeverFullUnlessStuck on the bound menu for B in {24,32,40}; edge-cover replay (input space offered, StuckOnInput); AlignedBuf checked in TLC and swept on the code",
+ "C06": dict(technique="TLC invariants BoundSuffices / NeverFullUnlessStuck on the bound menu for B in {24,32,40}; edge-cover replay (input space offered, StuckOnInput); AlignedBuf checked in TLC, over the whole domain by Apalache (AP_Rules.tla), and swept on the code",
    text="For each B the critical pair (name+value B-14..B-1, both encodings) is placed behind a small pair and cut at every structurally distinct offset; TLC proves on the model that no StuckOnInput occurs up to B-13 and that an unfinished parser always offers space, and every transition is replayed on the code comparing 'offers space', the stuck error and that each modelled call is accepted. The size rule is a TLA+ operator checked for 0..4100 and swept on the code for every n<=70000 and around powers of two.",
    note="tight limit beyond B-13 is explored (menu goes to B-1) but only reported", ref="6 C06"),
 })
@@ -74,7 +74,7 @@ CLAIMED.update({
  "C13": dict(technique="TLA+ spec of the token semaphore (Runner.tla, call-atomic, dependency semantics transcribed) model-checked over all operation histories; edge-cover replay on the real Runner/Token with counting wakers; multi-thread stress as a supplement",
    text="Runner.tla models get_token as the async-lock acquire loop over an event-listener queue (listen, non-additional notify, propagation on drop) and checks TokenBound, NoStrandedSlot and ImmediateWhenFree over every history of create / poll / cancel / release for limits 1..3 on a runner and its clone. Every explored transition is executed on the real types and the poll results, the wake-ups of pending requests and the number of live tokens are compared.",
    note="thread interleavings inside async-lock / event-listener are not steerable from outside: covered by a stress run with an independent live-token counter, not by the model", ref="6 C13"),
- "C14": dict(technique="TLA+ spec of the wait-group at instruction granularity (WaitGroup.tla) with every interleaving forced onto the real code through the cfg-guarded scheduling-point hook; connection-side shutdown in Conn.tla replayed on Token::run",
+ "C14": dict(technique="TLA+ spec of the wait-group at instruction granularity (WaitGroup.tla) with every interleaving forced onto the real code through the cfg-guarded scheduling-point hook; connection-side shutdown in Conn.tla replayed on Token::run; inductive invariant for any number of tokens by Apalache (AP_WaitGroup.tla, refined by WaitGroup.tla per TLC)",
    text="WaitGroup.tla splits a poll of the shutdown future into upgrade / register / drop-temporary and interleaves token drops at every point (in particular the last drop between the liveness check and the waker registration); TLC checks ShutdownNotEarly, ShutdownWoken and completion under fairness. The hook added to WaitGroupFuture::poll lets the harness execute exactly those interleavings on the real code. The connection side (no handler after a stop request, in-flight request completes, idle connection stops without reading) is part of Conn.tla with stop requests at every suspension.",
    note="hook commit b95836f (add-only, cfg fastcgi_server_verif)", ref="6 C14, 8"),
 })
